@@ -133,3 +133,30 @@ Definition ts_rates_Q0 (n : nat) (l : list (list (cx Q))) : Q * Q * Q :=
   (ts_rate_ss QOps n A u, ts_rate_ii QOps n A u, ts_rate_si QOps n A u).
 Definition purity_s_Q (n : nat) (F : list (cx Q)) : Q := purity_s QOps n (Fmat n (arr (0, 0)%Q F)).
 Definition purity_i_Q (n : nat) (F : list (cx Q)) : Q := purity_i QOps n (Fmat n (arr (0, 0)%Q F)).
+
+(* ---- hom_two_source_time_delays and the general hom_two_source_visibilities (free function).
+   What the delays read of a setup: the two waist positions (m) and the two average transit times (s) (oracle values). *)
+Record ts_source := mkSrc { sig_wp : R; idl_wp : R; sig_time : R; idl_time : R }.
+Definition light_c : R := 299792458%R.
+
+Definition ts_time_delays (spdc1 spdc2 : ts_source) : R * R * R :=
+  ((sig_time spdc2 - sig_time spdc1 + (sig_wp spdc2 - sig_wp spdc1) / light_c,
+    idl_time spdc2 - idl_time spdc1 + (idl_wp spdc2 - idl_wp spdc1) / light_c),
+   idl_time spdc2 - sig_time spdc1 + (idl_wp spdc2 - sig_wp spdc1) / light_c)%R.
+
+(* [same] is the outcome of the test `spdc1 == spdc2` (derived structural equality; false for equal values when a field is NaN).
+   same:  one series call at delay 0, all three visibilities from it, reported delays 0.
+   else:  the three channel delays from hom_two_source_time_delays, one series call per channel at its delay. *)
+Definition setup_ts_visibilities (same : bool) (J1 J2 : R -> R -> cx R) (spdc1 spdc2 : ts_source)
+    (ls1 li1 ls2 li2 : R * R) (n : nat) : (R * R) * (R * R) * (R * R) :=
+  let rates := fun dt => setup_ts_rates J1 J2 ls1 li1 ls2 li2 n dt in
+  if same then
+    let min_rate := rates 0%R in
+    ((0%R, visibility_of_rate (fst (fst min_rate))), (0%R, visibility_of_rate (snd (fst min_rate))), (0%R, visibility_of_rate (snd min_rate)))
+  else
+    let time_delays := ts_time_delays spdc1 spdc2 in
+    let min_ss := fst (fst (rates (fst (fst time_delays)))) in
+    let min_ii := snd (fst (rates (snd (fst time_delays)))) in
+    let min_si := snd (rates (snd time_delays)) in
+    ((fst (fst time_delays), visibility_of_rate min_ss), (snd (fst time_delays), visibility_of_rate min_ii),
+     (snd time_delays, visibility_of_rate min_si)).
